@@ -25,7 +25,9 @@ pub fn roundtrip_strategy() -> BoxedStrategy<Req> {
 
 /// structured payloads: right / short / long content, malformed JSON shapes
 pub fn de_strategy() -> BoxedStrategy<Req> {
-    (0u8..11, 0u8..2).prop_flat_map(|(ty, fmt)| {
+    (0u8..11, prop_oneof![3 => 0u8..2, 2 => 2u8..5]).prop_flat_map(|(ty, fmt)| {
+        // combinations that are not asserted (see expected_de) are mapped onto the JSON-value deserialiser
+        let fmt = if (fmt == 2 && (ty == 5 || ty == 9 || ty == 10)) || (fmt == 4 && ty == 8) { 3 } else { fmt };
         let l = if ty == 8 { 64usize } else { 32 };
         let content = prop_oneof![
             6 => value_of(ty),
